@@ -20,6 +20,10 @@ pub struct Ambient {
     /// find's output still goes to the simulated sink
     #[serde(default)]
     pub stdout_tty: bool,
+    /// descriptor 1 of the process is a pipe whose reading end is gone (`find … | head -1`
+    /// after head has left); find's output still goes to the simulated sink
+    #[serde(default)]
+    pub stdout_closed_pipe: bool,
     /// soft RLIMIT_NOFILE = highest descriptor open at the start of the run + 1 + this many
     #[serde(default)]
     pub nofile_headroom: Option<u32>,
@@ -90,6 +94,21 @@ impl Ambient {
                         libc::dup2(slave, 1);
                         g.fd1_saved = Some(saved);
                     }
+                }
+            }
+        }
+        if self.stdout_closed_pipe && g.fd1_saved.is_none() {
+            unsafe {
+                let mut fds = [0i32; 2];
+                if libc::pipe(fds.as_mut_ptr()) == 0 {
+                    libc::close(fds[0]);
+                    let saved = libc::dup(1);
+                    if saved >= 0 {
+                        libc::fcntl(saved, libc::F_SETFD, libc::FD_CLOEXEC);
+                        libc::dup2(fds[1], 1);
+                        g.fd1_saved = Some(saved);
+                    }
+                    libc::close(fds[1]);
                 }
             }
         }
